@@ -223,3 +223,16 @@ register('C02', 'translation_validation',
          "ctypes stand-in for the missing f2py/meson tool chain (same .f90 compiled with gfortran); GPU/Julia/Matlab "
          "outside",
          "SMT translation validation of emitted NumPy/Torch/JAX/Fortran text (symx + f90smt + z3)", "7/C02")
+register('C18', 'translation_validation',
+         "Models are exported with backend='fortran', auto=True and the written .f90 / c.* files are read back. The f90smt "
+         "interpreter executes STPNT (value fingerprints identify which parameter / state sits in which PAR slot / state "
+         "position), then FUNC through its forwarding call of the vector-field routine with PAR(slot) bound to the symbol "
+         "of the parameter STPNT put there: z3 proves dy equal to the reference semantics, one equality tying STPNT, the "
+         "forwarding call and the routine's signature order together. Every DFDU and DFDP entry is proved equal to the "
+         "forward-mode derivative of the exported routine w.r.t. y and PAR(slot) (so the DFDP column is the slot). "
+         "parnames/unames/NDIM/NPAR, slot order = declaration order, distinctness and the reserved range 10..14 are "
+         "checked on the parsed c.* file; CrossHair confirms _auto_param_indices for every tuple length <= 40.",
+         "reals for floats; 2..22 parameters per operator; auto-07p itself is not run; f2py is replaced by a gfortran + "
+         "ctypes stand-in in the harness; DFDU/DFDP are assumed zero-initialised by the caller; the line-wrapping helpers "
+         "are covered only through the exported programs (CrossHair does not decide them)",
+         "f90smt symbolic execution of the exported Fortran + forward-mode AD + z3; CrossHair on slot arithmetic", "7/C18")
